@@ -36,20 +36,21 @@ def main():
             runs = int(args[1]); args = args[2:]
         else:
             sys.exit("bad arg " + args[0])
-    src = f"/tmp/seed_{pid}/out/{n}"
+    src = os.environ.get("SEED_SRC", f"/tmp/seed_{pid}/out") + f"/{n}"
     patch = os.path.join(src, "patch.diff")
     if not os.path.exists(patch):
         sys.exit(f"no {patch}")
     demos = [f for f in os.listdir(src) if f.endswith(".go")]
     if not demos:
         sys.exit("no demonstration .go file in " + src)
-    wt = f"/tmp/ing_{pid}_{n}"
+    wt = f"/tmp/ing_{pid}_{n}_{os.getpid()}"
     sh(f"git -C /repo worktree remove --force {wt}")
     shutil.rmtree(wt, ignore_errors=True)
     rc, out = sh(f"git -C /repo worktree add -q --detach {wt} HEAD")
     if rc:
         sys.exit("worktree add failed: " + out)
-    meta = {"id": f"{pid}-{n}", "property": pid, "source": "independent sub-agent given only the property text and a scratch worktree",
+    sid = str(int(n) + int(os.environ.get("SEED_IDOFFSET", "0")))
+    meta = {"id": f"{pid}-{sid}", "property": pid, "source": "independent sub-agent given only the property text and a scratch worktree",
             "ingested_at": time.strftime("%Y-%m-%dT%H:%M:%SZ", time.gmtime()), "ran": []}
     ok = True
     try:
@@ -154,7 +155,7 @@ def main():
             res[c] = {"caught": bool(viol), "exit": rc, "first": first[:300], "wall_s": round(time.time() - t0, 1)}
             meta["ran"].append(f"VERIF_REPO=<patched scratch tree> ./check.sh {c} quick -> exit {rc}, {len(viol)} VIOLATION lines")
         meta["checks"] = res
-        dst = f"/verif/seeded/{pid}-{n}"
+        dst = f"/verif/seeded/{pid}-{sid}"
         os.makedirs(dst, exist_ok=True)
         shutil.copy(patch, os.path.join(dst, "patch.diff"))
         for d in demos:
@@ -165,7 +166,7 @@ def main():
         meta["confirmed"] = valid
         json.dump(meta, open(os.path.join(dst, "meta.json"), "w"), indent=1)
         caught = ", ".join(f"{c}:{'CAUGHT' if v['caught'] else 'missed'}" for c, v in res.items())
-        print(f"SEED {pid}-{n}: confirmed={valid} (clean demo fails {clean_fails}/{runs}, patched demo fails {patched_fails}/{runs}, suite {suite}) files={touched} checks: {caught}")
+        print(f"SEED {pid}-{sid}: confirmed={valid} (clean demo fails {clean_fails}/{runs}, patched demo fails {patched_fails}/{runs}, suite {suite}) files={touched} checks: {caught}")
         for c, v in res.items():
             if v["first"]:
                 print("   ", c, v["first"][:200])
